@@ -111,6 +111,18 @@ inductive Entry
   | dir
   | file (content : Option Bytes)    -- `none`: a block is missing (read error)
 
+/-- the bytes of a file as a reader gets them: `none` when a block is missing or shorter than a
+segment needs (the read fails) -/
+def fileContent (st : Store) (fn : FileNode) : Option Bytes :=
+  fn.segs.foldl (fun acc sg =>
+    match acc, sg with
+    | some a, Seg.mem buf _ => some (a ++ buf)
+    | some a, Seg.stored loc _ off len =>
+      (match st loc with
+       | some b => if off + len ≤ b.length then some (a ++ (b.drop off).take len) else none
+       | none => none)
+    | none, _ => none) (some [])
+
 /-- every path of the live filesystem below the root, with file contents as read through the
 segments -/
 def listFrom (s : FS9) : Nat → Nat → List Bytes → List (List Bytes × Entry)
@@ -121,7 +133,7 @@ def listFrom (s : FS9) : Nat → Nat → List Bytes → List (List Bytes × Entr
       match e.2 with
       | Node.file f =>
         (match s.files[f]? with
-         | some (_, fn) => [(p, Entry.file (some (C08.abs s.world.store fn)))]
+         | some (_, fn) => [(p, Entry.file (fileContent s.world.store fn))]
          | none => [])
       | Node.dir c => (p, Entry.dir) :: listFrom s fuel c p
 
